@@ -392,6 +392,48 @@ theorem pagemapGet_safe (g : Nat) (s : St) (hl : s.rd = 0 ∧ s.wr = 0 ∧ s.mtx
       · show (unlock (munlock s2)).live = _
         rw [x4, g1, a4, a2, n4, n6]
 
+/-- `kdump_set_attr(file.set.number)` growing the file set: whichever of the `per * k` allocations fails — in the
+first new slot or in a later one — the call fails with every block given back and the lock released; it succeeds
+exactly when none of them fails. -/
+theorem numFilesGrow_safe (per k : Nat) (s : St) (hl : s.rd = 0 ∧ s.wr = 0) :
+    (numFilesGrow per k s).2.rd = 0 ∧ (numFilesGrow per k s).2.wr = 0 ∧ (numFilesGrow per k s).2.bad = s.bad ∧
+    ((numFilesGrow per k s).1 = false → (numFilesGrow per k s).2.live = s.live ∧ Hits s (per * k)) ∧
+    ((numFilesGrow per k s).1 = true →
+      (numFilesGrow per k s).2.live.length = s.live.length + per * k ∧ ¬ Hits s (per * k)) := by
+  have hw : wrlock s = { s with wr := 1, trace := .W :: s.trace } := by
+    unfold wrlock; simp [hl.1, hl.2]
+  have hf := allocAll_fail (per * k) (wrlock s)
+  have hk := allocAll_ok (per * k) (wrlock s)
+  unfold numFilesGrow
+  simp only []
+  rcases hr : allocAll (per * k) (wrlock s) with ⟨_ | got, s2⟩
+  · rw [hr] at hf
+    obtain ⟨⟨l1, l2, l3, l4, _⟩, _, hh⟩ := hf rfl
+    rw [hw] at l1 l2 l3 l4 hh
+    simp only at l1 l2 l3 l4
+    have hu : unlock s2 = { s2 with wr := s2.wr - 1, trace := .U :: s2.trace } := by
+      unfold unlock; simp [l3]
+    simp only [hu, Option.isSome_none]
+    refine ⟨by rw [l2]; exact hl.1, by rw [l3], l4, ?_, ?_⟩
+    · intro _; exact ⟨l1, by unfold Hits at hh ⊢; simpa using hh⟩
+    · intro h; cases h
+  · rw [hr] at hk
+    obtain ⟨k1, k2, _, k4, _, k6, k7, k8, _⟩ := hk got rfl
+    rw [hw] at k2 k4 k6 k7 k8
+    simp only at k2 k4 k6 k7 k8
+    have hu : unlock s2 = { s2 with wr := s2.wr - 1, trace := .U :: s2.trace } := by
+      unfold unlock; simp [k8]
+    simp only [hu, Option.isSome_some]
+    refine ⟨by rw [k7]; exact hl.1, by rw [k8], k6, ?_, ?_⟩
+    · intro h; cases h
+    · intro _
+      refine ⟨by rw [k2, List.length_append, k1]; omega, ?_⟩
+      unfold Hits at k4 ⊢; simpa using k4
+
+example : (numFilesGrow 4 3 (St.init 7)).1 = false ∧ (numFilesGrow 4 3 (St.init 7)).2.live = [] ∧
+    (numFilesGrow 4 3 (St.init 7)).2.wr = 0 := by decide
+example : (numFilesGrow 4 3 (St.init 0)).1 = true ∧ (numFilesGrow 4 3 (St.init 0)).2.live.length = 12 := by decide
+
 /-- concrete runs: 3 contexts, a 2-block cache, the old slot buffers 1,2,3 and the old cache 4,5 -/
 example : (setPageSize {} 3 2 { cbuf := some [3, 2, 1], cache := [5, 4] } { cnt := 5, live := [5, 4, 3, 2, 1], failAt := 5 + 8 }).1 = false ∧
     (setPageSize {} 3 2 { cbuf := some [3, 2, 1], cache := [5, 4] } { cnt := 5, live := [5, 4, 3, 2, 1], failAt := 5 + 8 }).2.2.live = [10, 9, 8, 7, 6] := by decide
